@@ -14,11 +14,12 @@ from .common import cnat, cbool, clist
 
 ROLES = ["Ident", "ModelInfo", "Graph", "SearchJson", "ModelJson", "Metadata", "Log", "StartTime", "Time",
          "Dill", "DillTmp", "Summary", "SamplesInfo", "SamplesCsv", "Results", "SearchSummary", "Marker",
-         "SearchJsonTmp", "ModelJsonTmp", "SummaryTmp", "SamplesInfoTmp"]
+         "SearchJsonTmp", "ModelJsonTmp", "SummaryTmp", "SamplesInfoTmp", "Attr", "AttrTmp", "ResultExtra", "ResultExtraTmp"]
 JSON_TMP = {"SearchJsonTmp>SearchJson": "SearchJson", "ModelJsonTmp>ModelJson": "ModelJson",
-            "SummaryTmp>Summary": "Summary", "SamplesInfoTmp>SamplesInfo": "SamplesInfo"}
-TAGGED = ("Summary", "SamplesCsv", "Dill", "DillTmp", "SummaryTmp")
-EXC = {"SearchException": "SearchExc", "BadZipFile": "BadZip", "KeyError": "KeyErr", "EOFError": "EOFErr", "UnpicklingError": "Unpickling",
+            "SummaryTmp>Summary": "Summary", "SamplesInfoTmp>SamplesInfo": "SamplesInfo",
+            "AttrTmp>Attr": "Attr", "ResultExtraTmp>ResultExtra": "ResultExtra"}
+TAGGED = ("Summary", "SamplesCsv", "Dill", "DillTmp", "SummaryTmp", "ResultExtra", "ResultExtraTmp")
+EXC = {"UnboundLocalError": "UnboundLocal", "SearchException": "SearchExc", "BadZipFile": "BadZip", "KeyError": "KeyErr", "EOFError": "EOFErr", "UnpicklingError": "Unpickling",
        "ValueError": "ValueErr", "JSONDecodeError": "JSONDecode", "FileNotFoundError": "FileNotFound"}
 WRITE_KINDS = ("W", "A", "ZW", "ZTW")
 
@@ -138,9 +139,27 @@ def gen_cases(ctx, configs, probes):
         for occ in (0, 1):
             for v in ("empty", "half"):
                 cases.append(history(c, [crash(("W", srole, occ), v), FULL, FULL]))
-    # (1b) DatabasePaths: re-run of a completed fit through a database session (oracle only, not modelled)
-    for u in (1, 2):
-        cases.append(history({"search": "lbfgs", "updates": u, "remove_files": 1, "csv": 0, "keep_internal": 1, "chk": 0, "db": 1}, [FULL, FULL, FULL]))
+    # (1b) DatabasePaths (oracle only, not modelled): re-runs, kills at the n-th likelihood call and at the few file events
+    dbs = [{"search": sr, "updates": u, "remove_files": 1, "csv": csv, "keep_internal": 1, "chk": chk, "db": 1}
+           for (sr, u) in (("lbfgs", 1), ("lbfgs", 2), ("drawer", 0)) for csv in (0, 1) for chk in (0, 1)]
+    for c in (dbs if thorough else rng.sample(dbs, 3) + [dbs[-1]]):
+        c = dict(c)
+        if c["search"] == "drawer":
+            c.pop("updates")
+        cases.append(history(c, [FULL, FULL, FULL]))
+        cases.append(history(c, [crash(("LL", "LL", rng.randint(0, 6)), "before"), FULL, FULL]))
+        cases.append(history(c, [FULL, crash(rng.choice([("A", "Log", 0), ("R", "Log", 0), ("W", "Other:db.info", 0)]), "before"), FULL]))
+    # (1c) LBFGS update-block counts outside the enumerated configurations (0 = maxiter 0, 3, 4), kills at likelihood calls
+    for u in ((0, 3, 4) if thorough else (0, 3)):
+        c = {"search": "lbfgs", "updates": u, "remove_files": rng.randint(0, 1), "csv": rng.randint(0, 1), "keep_internal": rng.randint(0, 1),
+             "chk": rng.randint(0, 1)}
+        cases.append(history(c, [FULL, FULL]))
+        if u:
+            pts = [pt for pt in vocab["lbfgs2-rm%d-csv%d-keep%d-chk%d" % (c["remove_files"], c["csv"], c["keep_internal"], c["chk"])][0]]
+            for j in range(6 if thorough else 2):
+                pt = rng.choice(pts)
+                cases.append(history(c, [crash(pt, rng.choice(variants_of(pt[0]))), FULL, FULL]))
+            cases.append(history(c, [crash(("LL", "LL", rng.randint(0, 40)), "before"), FULL, FULL]))
     # (2) random multi-crash histories over every configuration
     n_multi = 700 if thorough else 60
     for i in range(n_multi):
@@ -149,14 +168,17 @@ def gen_cases(ctx, configs, probes):
         fresh, rerun = vocab[k]
         pool = fresh + rerun
         runs = []
-        n_runs = rng.choice([2, 2, 3, 3, 4])
+        n_runs = rng.choice([2, 2, 3, 3, 4, 6] if thorough else [2, 2, 3, 3, 4])
         for j in range(n_runs):
             if rng.random() < 0.2:
                 runs.append(FULL)
             else:
                 src = pool if rng.random() < 0.6 else (rerun or pool)
                 pt = rng.choice(src)
-                runs.append(crash(pt, rng.choice(variants_of(pt[0]))))
+                if rng.random() < 0.08:
+                    runs.append(crash(("LL", "LL", rng.randint(0, 12)), "before"))
+                else:
+                    runs.append(crash(pt, rng.choice(variants_of(pt[0]))))
         runs += [FULL, FULL]
         cases.append(history(c, runs, salt=i))
     return cases
@@ -166,11 +188,27 @@ def gen_cases(ctx, configs, probes):
 # classes (computed from the case only) and the property oracle
 # ---------------------------------------------------------------------------
 
+LBFGS_WINDOW = ("Time", "Summary", "SummaryTmp", "SamplesInfo", "SamplesInfoTmp", "SamplesCsv", "Results", "SearchSummary",
+                "ResultExtra", "ResultExtraTmp", "DillTmp")
+
+
+def in_lbfgs_window(cr):
+    """The kill falls between the first saved search state and `.completed` (from the crash specification alone)."""
+    k, r, occ, v = cr["kind"], cr["role"], cr.get("occ", 0), cr["variant"]
+    if k in ("W", "MV") and r in LBFGS_WINDOW and not (r == "DillTmp" and occ == 0):
+        return True
+    if r == "Dill" and ((k == "W" and (occ >= 1 or v == "half")) or (k == "MV" and (occ >= 1 or v != "before"))):
+        return True
+    return k == "W" and r == "Marker" and v == "before"
+
+
 def labels(case):
     """Labels of the situations a history contains, from its specification alone."""
     out = set()
     if case.get("db"):
-        return ["database-paths"]
+        return ["database-paths-drawer" if case["search"] == "drawer" else "database-paths-rerun"]
+    if case["search"] == "lbfgs" and case.get("updates") == 0:
+        out.add("lbfgs-zero-iterations")
     crashes = [r["crash"] for r in case["runs"] if r.get("crash")]
     for cr in crashes:
         if cr["kind"] in ("ZW",) and cr["variant"] in ("empty", "half"):
@@ -183,7 +221,7 @@ def labels(case):
             out.add("search-internal-truncated")
         if case.get("chk") and cr["kind"] == "W" and cr["role"] == "Summary" and cr["variant"] in ("empty", "half"):
             out.add("summary-truncated")
-        if case["search"] == "lbfgs":
+        if case["search"] == "lbfgs" and in_lbfgs_window(cr):
             out.add("lbfgs-interrupted")
     return sorted(out)
 
@@ -195,6 +233,8 @@ def copy_ok(files, tag, csv):
     def full(role):
         return role in d and d[role][0] == "full"
     if not (full("Marker") and full("Summary") and d["Summary"][1] == tag and full("Results") and full("SearchSummary")):
+        return False
+    if not (full("ResultExtra") and d["ResultExtra"][1] == tag):      # what Analysis.save_results wrote
         return False
     if csv and not (full("SamplesCsv") and d["SamplesCsv"][1] == tag and full("SamplesInfo")):
         return False
@@ -234,9 +274,13 @@ def oracle_db(case, res):
     fails = []
     runs = res["runs"]
     for i, run in enumerate(runs):
-        if run["outcome"] != "ok":
+        if run["outcome"] not in ("ok", "crashed"):
             fails.append((run["outcome"], "run %d with a database session did not terminate normally: %s %s" % (i, run["outcome"], run.get("msg"))))
+        if run.get("bad_rename"):
+            fails.append(("rename-incomplete", "run %d renamed an unfinished temporary file: %s" % (i, run["bad_rename"])))
     oks = [r for r in runs if r["outcome"] == "ok"]
+    if oks and oks[0]["evals"] == 0:
+        fails.append(("no-sampling", "the first run that returned a result never evaluated the likelihood"))
     if len(oks) >= 2:
         o = oks[0]["result"]
         for i, run in enumerate(oks[1:], 1):
@@ -267,6 +311,9 @@ def oracle(case, res):
             continue
         if run["fs"]["inconsistent"]:
             fails.append(("driver", "run %d: truncation bookkeeping disagrees with file contents %s" % (i, run["fs"]["inconsistent"])))
+        if run.get("bad_rename"):
+            fails.append(("rename-incomplete", "run %d renamed a temporary file that was not closed and complete onto its final name: %s "
+                          "(a kill before it is closed leaves a truncated file under the final name)" % (i, run["bad_rename"])))
         was_done = done
         if done is None:
             g = stored_tag(run["fs"], case["csv"])
@@ -451,7 +498,7 @@ def run_histories(cases, chunk=None):
     if not cases:
         return []
     n = common.NCPU
-    size = chunk or max(1, min(24, (len(cases) + n - 1) // n))
+    size = chunk or max(1, min(8, (len(cases) + n - 1) // n))
     chunks = [cases[i:i + size] for i in range(0, len(cases), size)]
     outs = common.run_impl_parallel("c06_impl", [{"cases": ch} for ch in chunks], timeout=1500)
     res = []
@@ -504,7 +551,7 @@ def run(ctx):
         "completed fit, no crashes); dynesty/emcee checkpoints are not covered",
         "output settings are fixed along a history; LBFGS runs >= 1 update block; visualisation is off",
         "theorems named *_repaired are about the model with the four file-system repairs switched on (proposed_fixes/C06-*.diff); the "
-        "correspondence checks whichever variant the code under test exhibits (flags detected behaviourally, reported in notes)",
+        "correspondence is pinned to Model.repaired (obligation model-variant: behavioural probes must show every repair present)",
     ]
     built = ctx.build()
     configs = all_configs()
@@ -521,6 +568,13 @@ def run(ctx):
     ]
     pcs = probe_cases(configs)
     pres = run_histories(pcs + extra_cases, chunk=2)
+    for attempt in range(2):      # a probe lost to a driver hiccup (time-out on a loaded machine) is simply run again
+        lost = [i for i, r in enumerate(pres) if "ok" not in r]
+        if not lost:
+            break
+        again = run_histories([(pcs + extra_cases)[i] for i in lost], chunk=1)
+        for i, r in zip(lost, again):
+            pres[i] = r
     bad = [r for r in pres if "ok" not in r]
     if bad:
         ctx.obligation("impl-driver", "harness", False, json.dumps(bad[0])[:800])
@@ -528,6 +582,11 @@ def run(ctx):
     probes = [(c, r["ok"]) for c, r in zip(configs, pres[:len(pcs)])]
     flags = detect_code(probes, [r["ok"] for r in pres[len(pcs):]])
     ctx.notes["code_flags_detected"] = flags
+    # every repair is in /repo: the correspondence is pinned to the `repaired` variant of the model (the one the *_repaired
+    # theorems are about); a regression of a repair shows up here, in the correspondence and in the oracle
+    ctx.obligation("model-variant", "correspondence", all(flags.values()),
+                   "behavioural probes: %s (all must be true = Model.repaired)" % json.dumps(flags))
+    flags = {k: True for k in flags}
     ctx.notes["events_fresh_run"] = {cfg_key(c): len(r["runs"][0]["trace"]) for c, r in probes}
     # stage 2: histories
     if ctx.replay and rp.get("case"):
